@@ -95,6 +95,20 @@ CHECKS = {
          "any exception is a failure. Exploration.",
          "Reads the language of the returned Regex through Regex.to_epsilon_nfa/accepts, which C05 judges separately.",
          "DESIGN.md section 4, C06"),
+ "C16": (PBT + " (reference transduction relation by BFS; extracted results evaluated by the reference)",
+         "Pairs of transducers sharing (colliding) state names, several start/final states, epsilon-input moves, non-writing epsilon cycles: "
+         "set(translate(w)) equals the reference output set for all inputs <=3 (+foreign symbol); union / concatenate / kleene_star (| +) are extracted "
+         "and their reference relation equals the union / pairwise concatenation / star of the operand relations; to_fst() is the identity on the "
+         "accepted words. Exploration.",
+         "Trusts vlib/ref_fst.py; epsilon cycles write nothing (property domain); output-length guard when evaluating library-produced machines.",
+         "DESIGN.md section 4, C16"),
+ "C17": (PBT + " (reference emptiness by function-table fixpoint, cross-checked per case by bounded brute-force derivation search)",
+         "Reduced-form indexed grammars (all four rule kinds, several consumption rules per index/variable, duplicated rules, reserved names S/T): "
+         "is_empty() equals the reference for optim 0..8 x 2-3 rule orders, on a second call, via bool() and after remove_useless_rules(); for <=4-rule "
+         "grammars the emptiness of intersection(r) / & equals the emptiness of the reference product grammar. Exploration.",
+         "Trusts vlib/ref_ig.py (table fixpoint, not Aho's marking); intersection clause kept tiny because the library's marking is exponential "
+         "(rare 20 s watchdog hits are reported as inconclusive).",
+         "DESIGN.md section 4, C17"),
 }
 NOT_APPLICABLE = {}
 
